@@ -1362,7 +1362,7 @@ current_op(Priority, Spec, Op) :-
     (  can_be_op_priority(Priority),
        can_be_op_specifier(Spec),
        error:can_be(atom, Op) ->
-       '$get_next_op_db_ref'(Priority, Spec, Op, ListOfOps),
+       '$get_next_op_db_ref'(_, Spec, Op, ListOfOps),
        lists:member(op(Priority, Spec, Op), ListOfOps)
     ).
 
